@@ -131,6 +131,38 @@ CHECKS["C17"] = dict(
     note="Trusted: ref/bsp.py, ref/l2ref.py quadrature; acceptance scaled by conditioning (cond*eps*100); NURBS geometry and "
          "degree p+2 monomials compared against the library's own Gauss rule; known finding: hierarchical load vector quadrature.")
 
+CHECKS["C01"] = dict(
+    category="model_checking", design_ref="DESIGN.md §3 C01",
+    technique="bounded-exhaustive enumeration of vform programs (grammar families x operator pairs x coefficient atoms; quick: fixed "
+              "strides) compiled by the real generator and C compiler, every assembled entry compared with the Gauss sum of an "
+              "independent denotational semantics evaluated for all (test, trial) pairs",
+    text="~240 (quick) / ~900 (thorough) programs incl. vector bases with non-square blocks, Petrov-Galerkin, surface, boundary "
+         "(all faces), space-time, predefined forms, string front end and on-demand sub-boxes are built, loaded and assembled on "
+         "spaces with mixed degrees, unequal dof counts, a repeated knot and curved B-spline/NURBS geometries; every entry (and "
+         "entry(i,j) for all pairs incl. structural zeros, multi_entries) must equal the reference to 1e-10 relative.",
+    note="Trusted: ref/vsem.py semantics, ref/bsp.py basis values; geometry/field values at Gauss nodes come from the library's "
+         "evaluators (C02/C07); one fixed payload set; cold compile dominates the run time.")
+CHECKS["C07"] = dict(
+    category="model_checking", design_ref="DESIGN.md §3 C07",
+    technique="bounded-exhaustive enumeration of function kinds x sdim x degrees x knot patterns x output shapes x weights x routes x "
+              "point sets against a reference tensor-product evaluator; explicit enumeration of ALL operation histories to depth "
+              "2 (3) over 12 seed geometries without state merging, with closure models and snapshot immutability",
+    text="B-spline routes are decided on every unit coefficient tensor; NURBS by own quotient rules; user/composed/boundary functions "
+         "on all routes; ~19k (quick) / ~435k (thorough) operation histories each compared with a pure closure model and every "
+         "pre-existing object compared byte-wise with its snapshot; arcs/circles/disks/annuli on exact circles for the documented "
+         "angle ranges.",
+    note="Trusted: ref/tp.py + ref/bsp.py; degrees 1-3, four knot patterns; tolerance 1e-10 norm-wise per derivative column.")
+CHECKS["C15"] = dict(
+    category="model_checking", design_ref="DESIGN.md §3 C15",
+    technique="exhaustive enumeration of per-level 0/1 sparsity patterns (all 2x2, 2x3/3x2, 3x3) x level tuples (L<=6) x queries x "
+              "level permutations, exact integer comparison with the dense Kronecker definition; rectangular products in forked "
+              "sandbox children",
+    text="nonzero (incl. order), lower_tri, per-row/column queries, transpose/join/slice/reorder, MLMatrix asmatrix/dot/reorder on "
+         "unit vectors, from_kvs for all knot-vector pairs of an alphabet (incl. nested meshes), kron_partial and the index maps "
+         "are compared with numpy.kron-based references over ~20k (quick) / ~150k (thorough) structures.",
+    note="Trusted: ref/mlref.py (numpy.kron); integer payloads => exact equality; order inside derived structures' index lists is "
+         "not demanded (undocumented).")
+
 NOT_YET = {}
 
 
